@@ -240,7 +240,9 @@ func (st *c09State) spawn(t *c09Thread) {
 			r.val = resp.GetValue()
 			r.by = resp.GetMetadata().GetUpdatedBy()
 		}
-		st.done <- c09Done{th: t.name, resp: r}
+		if st.threads.Current() != "" { // not a leftover of an earlier case
+			st.done <- c09Done{th: t.name, resp: r}
+		}
 	}()
 }
 
@@ -297,6 +299,9 @@ func (st *c09State) settle() bool {
 			startWriter.gate <- struct{}{}
 		}
 		var grace <-chan time.Time
+		if !running && len(st.events)+len(st.done) > 0 {
+			running = true // reports are waiting to be read: not quiet yet
+		}
 		if !running {
 			// nothing is known to be running: give a goroutine that was scheduled late a moment to report
 			if quiet {
@@ -333,8 +338,17 @@ func (st *c09State) settle() bool {
 					t.wgid = ev.id
 				}
 			case "guard.wait":
-				if q, _ := st.snapshot(); len(q) > 0 && (q[0] == ev.id) {
-					continue // stale: this session is the head by now
+				// stale unless this session is still waiting: it may be the head by now, or already gone
+				if q, _ := st.snapshot(); true {
+					waiting := false
+					for i, id := range q {
+						if id == ev.id && i > 0 {
+							waiting = true
+						}
+					}
+					if !waiting {
+						continue
+					}
 				}
 				if t.wgid != 0 && t.at == "inc.written" {
 					t.at = "writer.wait"
@@ -839,6 +853,7 @@ func c09Run(in *bufio.Scanner, w *bufio.Writer) {
 		if f[0] == "case" {
 			c09s.endCase()
 			st.endCase()
+			st.threads.NextEpoch()
 			st.setx = false
 			st.dead = false
 			st.cfg = ""
